@@ -86,8 +86,11 @@ UNITS.append(U("C05.fe_sqr_inner", ["C05"], FM, "h_fe_sqr_inner", verify=True, r
                timeout=600, tier="quick", min_obl=200, replay=False, note="UF multiplier; congruence r = a^2 mod p is assumed residue"))
 UNITS.append(U("C05.umul_axioms", ["C05"], FM, "h_umul_axioms", functions=UF, timeout=600, tier="quick", replay=False,
                note="bit-length axioms (B) of the UF multiplier contract, on the real multiplier"))
-UNITS.append(U("C05.fe_mul_inner.W128S", ["C05"], FM, "h_fe_mul_inner", cfg="W128S", verify=True, replace=UF, functions=["secp256k1_fe_mul_inner"], timeout=3000, tier="thorough", replay=False))
-UNITS.append(U("C05.fe_sqr_inner.W128S", ["C05"], FM, "h_fe_sqr_inner", cfg="W128S", verify=True, replace=UF, functions=["secp256k1_fe_sqr_inner"], timeout=3000, tier="thorough", replay=False))
+# W128S: only the 64x64 primitive secp256k1_umul128 is the UF (assumed: its bit-length axioms are not proved for the 32x32 decomposition);
+# the struct-mode u128_mul / u128_accum_mul / accum_u64 / rshift carry code is REAL in these units
+UFS = ["secp256k1_umul128"]
+UNITS.append(U("C05.fe_mul_inner.W128S", ["C05"], FM, "h_fe_mul_inner", cfg="W128S", verify=True, replace=UFS, assumed=UFS, functions=["secp256k1_fe_mul_inner", "secp256k1_u128_mul", "secp256k1_u128_accum_mul"], timeout=3000, tier="thorough", replay=False))
+UNITS.append(U("C05.fe_sqr_inner.W128S", ["C05"], FM, "h_fe_sqr_inner", cfg="W128S", verify=True, replace=UFS, assumed=UFS, functions=["secp256k1_fe_sqr_inner", "secp256k1_u128_mul", "secp256k1_u128_accum_mul"], timeout=3000, tier="thorough", replay=False))
 UNITS.append(U("C05.fe_mul_inner.W64", ["C05"], FM, "h_fe_mul_inner", cfg="W64", verify=True, functions=["secp256k1_fe_mul_inner"], timeout=1500, tier="thorough", replay=False,
                note="10x26: native 32x32->64 products, no UF"))
 UNITS.append(U("C05.fe_sqr_inner.W64", ["C05"], FM, "h_fe_sqr_inner", cfg="W64", verify=True, functions=["secp256k1_fe_sqr_inner"], timeout=1500, tier="thorough", replay=False))
@@ -116,6 +119,10 @@ UNITS.append(U("C05.sc_mul_512", ["C05"], SM, "h_sc_mul_512", verify=True, repla
                tier="quick", timeout=900, replay=False, note="UF multiplier bounded by (2^64-1)^2"))
 UNITS.append(U("C05.sc_reduce_512", ["C05"], SM, "h_sc_reduce_512", verify=True, functions=["secp256k1_scalar_reduce_512"],
                tier="quick", timeout=900, replay=False, note="real multiplications by the constant limbs of 2^256-n"))
+UNITS.append(U("C05.sc_mul_512.W128S", ["C05"], SM, "h_sc_mul_512", cfg="W128S", verify=True, replace=["secp256k1_umul128"], assumed=["secp256k1_umul128"],
+               functions=["secp256k1_scalar_mul_512", "secp256k1_scalar_sqr_512", "secp256k1_u128_mul"], tier="thorough", timeout=1500, replay=False, note="struct int128: only umul128 is the UF"))
+UNITS.append(U("C05.sc_reduce_512.W128S", ["C05"], SM, "h_sc_reduce_512", cfg="W128S", verify=True, replace=["secp256k1_umul128"], assumed=["secp256k1_umul128"],
+               functions=["secp256k1_scalar_reduce_512", "secp256k1_u128_mul", "secp256k1_u128_accum_mul"], tier="thorough", timeout=1500, replay=False, note="struct int128: umul128 = UF, exact for the constant limbs of 2^256-n"))
 UNITS.append(U("C05.sc_mul_512.W64", ["C05"], SM, "h_sc_mul_512", cfg="W64", verify=True, functions=["secp256k1_scalar_mul_512", "secp256k1_scalar_sqr_512"],
                tier="thorough", timeout=1500, replay=False, note="8x32: native 32x32->64 products"))
 UNITS.append(U("C05.sc_reduce_512.W64", ["C05"], SM, "h_sc_reduce_512", cfg="W64", verify=True, functions=["secp256k1_scalar_reduce_512"],
@@ -271,3 +278,5 @@ OBSERVED = {
 for _u in UNITS:
     if _u.name in OBSERVED:
         _u.min_obl = max(_u.min_obl, int(0.7 * OBSERVED[_u.name]))
+UNITS.append(U("C05.spec_lemmas", ["C05"], FE, "h_spec_lemmas", functions=[], tier="quick", timeout=300, replay=False,
+               note="lemma harness: contracts/pre.h scalar_ok / fe_canon / fe_mag (limb-wise transcriptions) equal their value-level meaning for every bit pattern"))
